@@ -540,16 +540,106 @@ impl Clone for %s {
         txt = self.r19_zip_from(txt)
         txt = self.r20_read_exact(txt)
         txt = self.r22_range_bounds(txt)
+        txt = self.r23_deref_patterns(txt)
+        txt = self.r24_take_while_map(txt)
         return txt
 
     def r22_range_bounds(self, txt):
-        # R22: `X.start_bound()` / `X.end_bound()` on a generic `impl RangeBounds<usize>` -> `vshim::start_bound(&X)` / `vshim::end_bound(&X)`:
-        # vstd specifies the concrete impls (Range, RangeTo, ...) but a call through the trait bound gets no contract; the shim calls the
-        # same trait method and is assumed to return the vstd spec value `X.spec_start_bound()` / `X.spec_end_bound()`
+        # R22: `X.start_bound()` / `X.end_bound()` / `X.contains(&E)` on a generic `impl RangeBounds<T>` -> `vshim::start_bound(&X)` /
+        # `vshim::end_bound(&X)` / `vshim::range_contains(&X, &E)`: vstd specifies the concrete impls (Range, RangeTo, ...) but a call
+        # through the trait bound gets no contract; the shim calls the same trait method and is assumed to return what vstd's
+        # spec of the trait (`spec_start_bound` / `spec_end_bound`) says
         def rep(m):
             self.rules.hit('R22')
             return 'crate::vshim::%s_bound(&%s)' % (m.group(2), m.group(1))
-        return re.sub(r'\b([a-z_][a-z0-9_]*)\.(start|end)_bound\(\)', rep, txt)
+        txt = re.sub(r'\b([a-z_][a-z0-9_]*)\.(start|end)_bound\(\)', rep, txt)
+        def rep2(m):
+            self.rules.hit('R22')
+            return 'crate::vshim::range_contains(&%s, &' % m.group(1)
+        return re.sub(r'\b([a-z_][a-z0-9_]*)\.contains\(\s*&', rep2, txt)
+
+    def r23_deref_patterns(self, txt):
+        # R23: a reference pattern binding a Copy value in a match arm, `PATH(&NAME) => {` -> `PATH(NAME__verif_ref) => { let NAME = *NAME__verif_ref;`
+        # and `PATH(&NAME) => EXPR,` -> `PATH(NAME__verif_ref) => { let NAME = *NAME__verif_ref; EXPR },`
+        # (Verus: "ref patterns" unsupported); definitional desugaring of the pattern
+        while True:
+            sg = [t for t in lex(txt) if t.kind not in ('ws', 'comment')]
+            hit = None
+            for i in range(len(sg) - 5):
+                if (sg[i].text == '(' and sg[i + 1].text == '&' and sg[i + 2].kind == 'ident' and sg[i + 3].text == ')'
+                        and sg[i + 4].text == '=>' and i > 0 and sg[i - 1].kind == 'ident' and sg[i - 1].text[:1].isupper()):
+                    hit = i; break
+            if hit is None:
+                return txt
+            i = hit
+            name = sg[i + 2].text
+            let = ' let %s = *%s__verif_ref;' % (name, name)
+            if sg[i + 5].text == '{':
+                txt = txt[:sg[i + 1].start] + name + '__verif_ref' + txt[sg[i + 2].end:sg[i + 5].end] + let + txt[sg[i + 5].end:]
+            else:
+                d, end = 0, None
+                for j in range(i + 5, len(sg)):
+                    if sg[j].text in ('(', '[', '{'):
+                        d += 1
+                    elif sg[j].text in (')', ']', '}'):
+                        d -= 1
+                        if d < 0:
+                            end = sg[j].start; break
+                    elif sg[j].text == ',' and d == 0:
+                        end = sg[j].start; break
+                if end is None:
+                    raise ToolCondition('R23: cannot find the end of a match arm')
+                e2 = end
+                while e2 > 0 and txt[e2 - 1].isspace():
+                    e2 -= 1
+                txt = (txt[:sg[i + 1].start] + name + '__verif_ref' + txt[sg[i + 2].end:sg[i + 4].end] + ' {' + let + ' '
+                       + txt[sg[i + 4].end:e2].lstrip(' ') + ' }' + txt[e2:])
+            self.rules.hit('R23')
+
+    def r24_take_while_map(self, txt):
+        # R24: `(A..B).take_while(P).map(F)` -> `vshim::range_take_while_map(A, B, P, F)`: Iterator::take_while / map are provided trait
+        # methods returning adapter types without vstd model; the shim holds the std expression and is assumed to behave as std documents
+        toks = [t for t in lex(txt)]
+        sg = [t for t in toks if t.kind not in ('ws', 'comment')]
+        def close_of(i):   # index in sg of the bracket matching sg[i]
+            d = 0
+            for j in range(i, len(sg)):
+                if sg[j].text in ('(', '[', '{'):
+                    d += 1
+                elif sg[j].text in (')', ']', '}'):
+                    d -= 1
+                    if d == 0:
+                        return j
+            return None
+        for i, t in enumerate(sg):
+            if t.text != '(':
+                continue
+            c1 = close_of(i)
+            if c1 is None or c1 + 3 >= len(sg):
+                continue
+            inner = sg[i + 1:c1]
+            dd = [k for k, x in enumerate(inner) if x.text == '..']
+            if len(dd) != 1 or not (sg[c1 + 1].text == '.' and sg[c1 + 2].text == 'take_while' and sg[c1 + 3].text == '('):
+                continue
+            c2 = close_of(c1 + 3)
+            if c2 is None or not (sg[c2 + 1].text == '.' and sg[c2 + 2].text == 'map' and sg[c2 + 3].text == '('):
+                continue
+            c3 = close_of(c2 + 3)
+            if c3 is None:
+                continue
+            a_txt = txt[inner[0].start:inner[dd[0]].start].strip()
+            b_txt = txt[inner[dd[0]].end:sg[c1].start].strip()
+            p_txt = txt[sg[c1 + 3].end:sg[c2].start]
+            f_txt = txt[sg[c2 + 3].end:sg[c3].start]
+            if not a_txt or not b_txt:
+                continue
+            gap1 = txt[sg[c1].end:sg[c1 + 3].end]      # `\n .take_while(`
+            gap2 = txt[sg[c2].start:sg[c2 + 3].end]    # `)\n .map(`
+            new = ('crate::vshim::range_take_while_map(%s, %s,' % (a_txt, b_txt) + '\n' * (txt[sg[i].start:sg[c1].end].count('\n') + gap1.count('\n'))
+                   + p_txt + ',' + '\n' * gap2.count('\n') + f_txt + ')')
+            self.rules.hit('R24')
+            return self.r24_take_while_map(txt[:sg[i].start] + new + txt[sg[c3].end:])
+        return txt
 
     def r20_read_exact(self, txt):
         # R20: `FILE.read_exact(&mut *BLOCK)` -> `vshim::read_exact_block(&mut FILE, &mut BLOCK)`: `Read::read_exact` is a provided
@@ -1054,6 +1144,20 @@ impl Clone for %s {
                 elif pf.mode == 'before':
                     off = b_lo + m.start()
                     inserts.append((off, seg, off))
+                elif pf.mode == 'tail':
+                    # R25: the tail expression of the body (it starts where the regex matches) is bound to `verif_tail`, the proof text
+                    # follows, and `verif_tail` becomes the tail expression: `E` -> `let verif_tail = E; proof { .. } verif_tail`
+                    off = b_lo + m.start()
+                    inserts.append((off, Seg('let verif_tail = ', 'src'), off))
+                    end = b_hi
+                    while end > off and txt[end - 1].isspace():
+                        end -= 1
+                    if txt[end - 1] == ';':
+                        raise ToolCondition('%s: @proof tail: the body does not end in a tail expression' % addr)
+                    inserts.append((end, Seg(';', 'src'), end))
+                    inserts.append((end, seg, end))
+                    inserts.append((end, Seg('        verif_tail\n', 'src'), end))
+                    self.rules.hit('R25')
                 else:
                     raise ToolCondition('%s: proof mode %s unsupported' % (addr, pf.mode))
         elif c and (c.loops or c.proofs) and status == 'verify':
